@@ -50,3 +50,34 @@ pub fn run_c06(ctx: &mut Ctx, _replay: Option<&[String]>) {
     }
     ctx.extra.insert("encoder_and_girth".into(), enc.join(" "));
 }
+
+fn dump_rows_sorted_cols(h: &SparseMatrix) -> String {
+    let cols: Vec<Vec<usize>> = cols_of(h).into_iter().map(|mut c| { c.sort_unstable(); c }).collect();
+    format!("{} {} {} {}", h.num_rows(), h.num_cols(), ll(&rows_of(h)), ll(&cols))
+}
+
+pub fn run_c07(ctx: &mut Ctx, _replay: Option<&[String]>) {
+    let mut rng = crate::rng::Rng::new(ctx.seed, 7);
+    let mut enc = Vec::new();
+    for rate in enum_iterator::all::<ccsds::AR4JARate>() {
+        for size in enum_iterator::all::<ccsds::AR4JAInfoSize>() {
+            let k = match format!("{:?}", size).as_str() { "K1024" => 1024, "K4096" => 4096, _ => 16384 };
+            if k == 16384 && !ctx.thorough {
+                ctx.tag("k16384-skipped-in-quick-tier");
+                continue;
+            }
+            let h = ccsds::AR4JACode::new(rate, size).h();
+            // dense elimination is O(r^2 n): only the k = 1024 codes in quick, k = 4096 in thorough
+            if k == 1024 || (k == 4096 && ctx.thorough) {
+                enc.push(format!("{:?}/{}={}", rate, k, encoder_accepts(&h, &mut rng, 2)));
+            }
+            let girth = if format!("{:?}", rate) == "R1_2" && k == 1024 { format!("{:?}", h.girth_with_max(6)) } else { "-".into() };
+            enc.push(format!("{:?}/{}:girth<=6:{}", rate, k, girth));
+            ctx.emit(&format!("c07 ar4ja {:?} {}", rate, k), &dump_rows_sorted_cols(&h), true, &["ar4ja"]);
+        }
+    }
+    let h = ccsds::C2Code::new().h();
+    enc.push(format!("C2:girth<=6:{:?}", h.girth_with_max(6)));
+    ctx.emit("c07 c2", &dump_rows_sorted_cols(&h), true, &["c2"]);
+    ctx.extra.insert("encoder_and_girth".into(), enc.join(" "));
+}
